@@ -8,4 +8,4 @@ CONSTANTS
   SLen = 3
   AlphaCap = 4
   LenCap = 3
-  Budget = 100
+  Budget = 50
